@@ -1550,6 +1550,10 @@ class BaseSpaceImpl(*_base_space_impl_base):
         """Clear values of formulas that read References by attribute access"""
         for ref in self.own_refs.values():
             self.model.clear_attr_referrers(ref)
+        if not self.is_dynamic():
+            # Model-level References are also reached through spaces
+            for ref in self.model.global_refs.values():
+                self.model.clear_attr_referrers(ref)
         for space in self.named_spaces.values():
             space.clear_ref_referrers()
 
